@@ -790,7 +790,8 @@ def _desugar_factors_with_weights(design: List[Factor],
     weighted = []
     for f in design:
         if (not isinstance(f, DerivedFactor)) and (not isinstance(f, ContinuousFactor)) and any([l.weight > 1 for l in f.levels]):
-            if all([not f in c for c in crossings]):
+            # (in no crossing at all, or in some but not all of several crossings)
+            if not all([f in c for c in crossings]) or not crossings:
                 weighted.append(f)
     if not weighted:
         # No desugaring needed
